@@ -16,8 +16,8 @@ func (s *Schedule) Matches(w time.Time) bool {
 	return ok
 }
 
-// matchLevel: level 0 = month/day/hour wrong, 1 = minute wrong, 2 = second
-// wrong, 3 = match.
+// matchLevel: level 0 = month or day wrong, 1 = hour wrong, 2 = minute wrong,
+// 3 = second wrong, 4 = match. w must read the zone's wall clock.
 func (s *Schedule) matchLevel(w time.Time) (bool, int) {
 	if s.DomStar == Unspecified || s.DowStar == Unspecified {
 		panic("cronref: day rule of this schedule is not specified by the documentation")
@@ -33,14 +33,16 @@ func (s *Schedule) matchLevel(w time.Time) (bool, int) {
 		dayOK = domIn || dowIn
 	}
 	switch {
-	case s.Month>>uint(month)&1 == 0 || !dayOK || s.Hour>>uint(hour)&1 == 0:
+	case s.Month>>uint(month)&1 == 0 || !dayOK:
 		return false, 0
-	case s.Min>>uint(min)&1 == 0:
+	case s.Hour>>uint(hour)&1 == 0:
 		return false, 1
-	case s.Sec>>uint(sec)&1 == 0:
+	case s.Min>>uint(min)&1 == 0:
 		return false, 2
+	case s.Sec>>uint(sec)&1 == 0:
+		return false, 3
 	}
-	return true, 3
+	return true, 4
 }
 
 // Zone is a location together with what a scan of it established about the
@@ -57,6 +59,8 @@ type Zone struct {
 	UnalignedTransitions []int64 // transitions that are not on a UTC quarter hour
 	badQuarter           map[int64]bool
 	badMinute            map[int64]bool
+	offAfter             []int // offAfter[i]: the offset in force from Transitions[i] on
+	offFirst             int   // the offset in force at From
 }
 
 func offsetAt(loc *time.Location, u int64) int {
@@ -71,7 +75,8 @@ func ScanZone(name string, loc *time.Location, from, to int64) (*Zone, error) {
 	z := &Zone{Name: name, Loc: loc, From: from, To: to, badQuarter: map[int64]bool{}, badMinute: map[int64]bool{}, AllOffsets15m: true}
 	offs := map[int]bool{}
 	cur := time.Unix(from, 0).In(loc)
-	offs[offsetAt(loc, from)] = true
+	z.offFirst = offsetAt(loc, from)
+	offs[z.offFirst] = true
 	for {
 		_, end := cur.ZoneBounds()
 		if end.IsZero() || end.Unix() > to {
@@ -82,6 +87,7 @@ func ScanZone(name string, loc *time.Location, from, to int64) (*Zone, error) {
 		offs[after] = true
 		if before != after {
 			z.Transitions = append(z.Transitions, e)
+			z.offAfter = append(z.offAfter, after)
 			if e%900 != 0 {
 				z.badQuarter[e/900] = true
 				z.UnalignedTransitions = append(z.UnalignedTransitions, e)
@@ -124,6 +130,9 @@ func ScanZone(name string, loc *time.Location, from, to int64) (*Zone, error) {
 		if n > 1 {
 			return nil, fmt.Errorf("zone %s: two offset changes within one quarter hour after %d", name, q)
 		}
+		if z.tableOffset(q+900) != next {
+			return nil, fmt.Errorf("zone %s: offset table disagrees with the zone at %d", name, q+900)
+		}
 		if has != (prev != next) {
 			return nil, fmt.Errorf("zone %s: period walk and quarter-hour probe disagree at %s", name, time.Unix(q, 0).UTC().Format(time.RFC3339))
 		}
@@ -164,23 +173,78 @@ type Answer struct {
 	Unix  int64
 }
 
+// tableOffset: the UTC offset at u according to the table the scan produced.
+func (z *Zone) tableOffset(u int64) int {
+	i := sort.Search(len(z.Transitions), func(i int) bool { return z.Transitions[i] > u })
+	if i == 0 {
+		return z.offFirst
+	}
+	return z.offAfter[i-1]
+}
+
 // Scanner is the reference "next activation": a monotone scan of absolute
-// time. It never builds a time from calendar fields; it reads the wall clock
-// of each probed instant with In(loc). Being a forward scan that tests every
-// instant it does not provably skip, the first match it reports is the
-// earliest by construction.
+// time. It never builds a time from calendar fields. Being a forward scan that
+// tests every instant it does not provably skip, the first match it reports is
+// the earliest by construction.
+//
+// Plain mode (Fast=false) is the definition: each probed instant is read on
+// the zone's wall clock with In(loc); when month/day/hour cannot match the scan
+// moves to the next UTC quarter hour, when the minute cannot match to the next
+// UTC minute - only where the zone's offset is a multiple of 15 minutes (one
+// minute) and no offset change lies inside the skipped stretch - else to the
+// next second.
+//
+// Fast mode reads the wall clock as UTC+offset with the offset taken from the
+// table ScanZone built (and cross-checked against In(loc) at every quarter
+// hour of the era), and skips to the end of the current local day / hour /
+// minute when the date / hour / minute cannot match, but never across an
+// offset change. Every 1024th probe it re-reads the wall clock with In(loc)
+// and panics on any difference; the checks additionally compare Fast against
+// Plain answers on a sample of their cases.
 //
 // A Scanner remembers the stretch [a, b) it has already established to be free
 // of matches, so that consecutive questions with non-decreasing start instants
 // continue the same scan instead of repeating it (Next(t') = Next(t) whenever
-// t <= t' < Next(t)). A fresh Scanner per question gives the plain definition.
+// t <= t' < Next(t)). A fresh Scanner per question gives the memory-less form.
 type Scanner struct {
 	Z      *Zone
 	S      *Schedule
+	Fast   bool
 	a, b   int64
 	hit    bool // b itself matches
 	valid  bool
 	Probes int64 // instants examined (cost / coverage measure)
+}
+
+// wall reads the zone's wall clock at u as a UTC-located Time with the same
+// field values, plus the offset and the next offset change after u (0 = none).
+func (sc *Scanner) wall(u int64) (w time.Time, off int, nextChange int64) {
+	z := sc.Z
+	if !sc.Fast {
+		w = time.Unix(u, 0).In(z.Loc)
+		_, off = w.Zone()
+		return w, off, 0
+	}
+	i := sort.Search(len(z.Transitions), func(i int) bool { return z.Transitions[i] > u })
+	off = z.offFirst
+	if i > 0 {
+		off = z.offAfter[i-1]
+	}
+	if i < len(z.Transitions) {
+		nextChange = z.Transitions[i]
+	}
+	w = time.Unix(u+int64(off), 0).UTC()
+	if sc.Probes%1024 == 0 {
+		d := time.Unix(u, 0).In(z.Loc)
+		y1, m1, d1 := d.Date()
+		y2, m2, d2 := w.Date()
+		h1, mi1, s1 := d.Clock()
+		h2, mi2, s2 := w.Clock()
+		if y1 != y2 || m1 != m2 || d1 != d2 || h1 != h2 || mi1 != mi2 || s1 != s2 || d.Weekday() != w.Weekday() {
+			panic(fmt.Sprintf("cronref: offset table and In(loc) disagree at %d in %s", u, z.Name))
+		}
+	}
+	return w, off, nextChange
 }
 
 // Next: the earliest whole second strictly after t that matches, provided its
@@ -191,7 +255,8 @@ func (sc *Scanner) Next(t time.Time) Answer {
 	if start < sc.Z.From || start > sc.Z.To {
 		panic("cronref: start outside the scanned era")
 	}
-	limitYear := time.Unix(start, 0).In(sc.Z.Loc).Year() + 5
+	w0, _, _ := sc.wall(start)
+	limitYear := w0.Year() + 5
 	if !sc.valid || start < sc.a || start > sc.b {
 		sc.a, sc.b, sc.hit, sc.valid = start, start, false, true
 	}
@@ -199,7 +264,7 @@ func (sc *Scanner) Next(t time.Time) Answer {
 		if sc.b > sc.Z.To {
 			panic("cronref: scan left the scanned era")
 		}
-		w := time.Unix(sc.b, 0).In(sc.Z.Loc)
+		w, off, nextChange := sc.wall(sc.b)
 		if w.Year() > limitYear {
 			return Answer{}
 		}
@@ -209,25 +274,43 @@ func (sc *Scanner) Next(t time.Time) Answer {
 			sc.hit = true
 			break
 		}
-		_, off := w.Zone()
+		if sc.Fast {
+			h, m, s := w.Clock()
+			var next int64
+			switch level {
+			case 0:
+				next = sc.b + int64(86400-(h*3600+m*60+s)) // local midnight
+			case 1:
+				next = sc.b + int64(3600-(m*60+s)) // next local hour
+			case 2:
+				next = sc.b + int64(60-s) // next local minute
+			default:
+				next = sc.b + 1
+			}
+			if nextChange != 0 && nextChange < next {
+				next = nextChange // the wall clock jumps there: re-read it
+			}
+			sc.b = next
+			continue
+		}
 		switch {
-		case level == 0 && off%900 == 0 && !sc.Z.badQuarter[sc.b/900]:
+		case level <= 1 && off%900 == 0 && !sc.Z.badQuarter[sc.b/900]:
 			// month, day and hour are constant over this UTC quarter hour
 			sc.b = (sc.b/900 + 1) * 900
-		case level <= 1 && off%60 == 0 && !sc.Z.badMinute[sc.b/60]:
+		case level <= 2 && off%60 == 0 && !sc.Z.badMinute[sc.b/60]:
 			// ... and, with the minute, over this UTC minute
 			sc.b = (sc.b/60 + 1) * 60
 		default:
 			sc.b++
 		}
 	}
-	if time.Unix(sc.b, 0).In(sc.Z.Loc).Year() > limitYear {
+	if wb, _, _ := sc.wall(sc.b); wb.Year() > limitYear {
 		return Answer{}
 	}
 	return Answer{Found: true, Unix: sc.b}
 }
 
-// Next is the plain (memory-less) reference.
+// Next is the plain, memory-less reference.
 func Next(z *Zone, s *Schedule, t time.Time) Answer {
 	sc := Scanner{Z: z, S: s}
 	return sc.Next(t)
